@@ -150,7 +150,8 @@ def main(tier):
 
     def report(raw, what, how):
         p = vlib.save_replay(PID, {"property": PID, "what": what, "found_by": how, "input_latin1": vlib.b2s(raw)[:4000]}, raw=raw, ext="bin")
-        viol.append((p, what))
+        # the input itself goes into the report line as well (a replay file left in a discarded copy of /verif is of no use)
+        viol.append((p, what + "  [input, %d bytes: %r]" % (len(raw), bytes(raw[:240]))))
 
     # 1. regression corpus
     regress = sorted(glob.glob(os.path.join(vlib.VERIF, "corpus", PID, "regress", "*")))
@@ -191,7 +192,7 @@ def main(tier):
 
     # 3. coverage-guided fuzzing, oracle inside the target
     njobs = vlib.NCPU
-    secs = 45 if tier == "quick" else 600
+    secs = int(os.environ.get("VERIF_FUZZ_SECS") or (45 if tier == "quick" else 600))
     dict_path = os.path.join(wd, "dict.txt")
     write_dict(dict_path)
     seeds_dir = os.path.join(wd, "seed_corpus")
